@@ -102,7 +102,7 @@ fn scenarios_for(prop: &str) -> Option<(Vec<Box<dyn Scenario>>, Report)> {
             base(
                 "C16",
                 "exploration",
-                "persist: one run = (type, width, value class, serde format, delivery styles, 0-2 token/medium faults, optional serializer/deserializer error injection, optionally every truncation offset of the payload) executed as serialize -> medium -> deserialize against the real impls; print: one run = (type, width, value, fmt trait, # flag) formatted into an unlimited sink and then into a sink of every capacity 0..len; slices: one run = (decoder among Uint::from_{be,le}_slice, Uint::from_{be,le}_hex, Int::from_be_hex, BoxedUint::from_{be,le}_slice, BoxedUint::from_be_hex; width or bit precision 0..=520 (thorough: ..=2100); value class; precision handed to the reader) written by the real to_{be,le}_bytes as a record of the stated size, 0-2 medium faults or every record length 0..=size+9 with stale bytes at either end, read back and judged against the documented answer (value / InputSize / Precision / refusal). distinct_nontrivial = distinct abstract states (scenario, type, format, delivery styles, fault-kind combination, accept/reject) resp. (type, trait, flag, chunk count)",
+                "persist: one run = (type, width, value class, serde format, delivery styles, 0-2 token/medium faults, optional serializer/deserializer error injection, optionally every truncation offset of the payload) executed as serialize -> medium -> deserialize against the real impls; print: one run = (type, width, value, fmt trait, # flag) formatted into an unlimited sink and then into a sink of every capacity 0..len; slices: one run = (decoder among Uint::from_{be,le}_slice, Uint::from_{be,le}_hex, Int::from_be_hex, BoxedUint::from_{be,le}_slice, BoxedUint::from_be_hex; width or bit precision 0..=520 (thorough: ..=2100); value class; precision handed to the reader) written by the real to_{be,le}_bytes as a record of the stated size, 0-2 medium faults or every record length 0..=size+9 with stale bytes at either end, read back and judged against the documented answer (value / InputSize / Precision / refusal); one run in sixteen feeds BoxedUint::from_words from a simulated word source with an exact, loose or absent size_hint. distinct_nontrivial = distinct abstract states (scenario, type, format, delivery styles, fault-kind combination, accept/reject) resp. (type, trait, flag, chunk count)",
                 &["serde format (SimSerializer/SimDeserializer: tokens Bytes/Str/U64/None/Some; is_human_readable, delivery style, error-at-call, type confusion, payload faults)", "storage medium faults on the payload", "text sink with a capacity (SimFmtSink)", "positional reference (byte i of the big-endian form = floor(x/256^(n-1-i)) mod 256)"],
                 &[
                     "scoped claim: conversions that go through the serde or fmt seams or that read a byte / hex record back from the storage medium (slice and hex decoders, fixed and boxed, with the boxed precision errors); From<primitive>, to/from words, concat/split/resize/widen/shorten involve no record, device or fault and are NOT decided here",
